@@ -2609,8 +2609,14 @@ int x509_uri_as_distribution_point_name_from_der(const char **uri, size_t *urile
 
 	if ((ret = x509_distribution_point_name_from_der(&choice, &d, &dlen, in, inlen)) != 1) {
 		if (ret < 0) error_print();
+		else {
+			*uri = NULL;
+			*urilen = 0;
+		}
 		return ret;
 	}
+	*uri = NULL;
+	*urilen = 0;
 	if (choice == X509_full_name) {
 		if (x509_general_names_get_first(d, dlen, NULL, X509_gn_uniform_resource_identifier, (const uint8_t **)uri, urilen) < 0) {
 			error_print();
@@ -2669,6 +2675,10 @@ int x509_uri_as_explicit_distribution_point_name_from_der(int index,
 
 	if ((ret = asn1_explicit_from_der(index, &a, &alen, in, inlen)) != 1) {
 		if (ret < 0) error_print();
+		else {
+			*uri = NULL;
+			*urilen = 0;
+		}
 		return ret;
 	}
 	if (x509_uri_as_distribution_point_name_from_der(uri, urilen, &a, &alen) != 1
